@@ -19,6 +19,7 @@ import (
 	"github.com/apache/arrow-go/v18/parquet/file"
 	"github.com/apache/arrow-go/v18/parquet/pqarrow"
 	"github.com/gofiber/fiber/v2"
+	"github.com/gofiber/fiber/v2/middleware/recover"
 	"github.com/rs/zerolog"
 	"github.com/valyala/fasthttp"
 
@@ -166,6 +167,10 @@ func (n *node) boot() error {
 	n.coord = shutdown.New(60*time.Second, harnessLogger())
 	n.buf, n.walw = simBootIngest(n.cfg, n.fb, n.coord)
 	app := fiber.New(fiber.Config{DisableStartupMessage: true, BodyLimit: 64 << 20})
+	// same first middleware as api.NewServer: a panic inside a request handler
+	// becomes a 500 answer, it does not take the process down. (A panic in a
+	// background task is not covered by it and is what C04 watches for.)
+	app.Use(recover.New(recover.Config{EnableStackTrace: false}))
 	mp := api.NewMsgPackHandler(harnessLogger(), n.buf, 1<<20) // 1 MiB payload cap (same code path as the default, cheaper bombs)
 	mp.RegisterRoutes(app)
 	lp := api.NewLineProtocolHandler(n.buf, harnessLogger())
